@@ -355,14 +355,21 @@ def check_proofs(prop_id, extra_files=(), deep=False):
     n_reports = 0
     for f in srcs:
         base = os.path.basename(f)[:-2]
-        try:
-            p = subprocess.run(["coqc", "-noglob", "-Q", COQ, "NS", f, "-o", os.path.join(wd, base + ".vo")],
-                               stdout=subprocess.PIPE, stderr=subprocess.STDOUT, text=True, timeout=1200)
-        except subprocess.TimeoutExpired:
-            info.update(ok=False, detail="coqc timed out on " + base + ".v")
-            return info
+        p = None
+        for attempt in range(2):
+            # a proof that fails fails deterministically: one retry separates that from a coqc killed by the
+            # environment (observed once under heavy load: non-zero status, no error message)
+            try:
+                p = subprocess.run(["coqc", "-noglob", "-Q", COQ, "NS", f, "-o", os.path.join(wd, base + ".vo")],
+                                   stdout=subprocess.PIPE, stderr=subprocess.STDOUT, text=True, timeout=1200,
+                                   preexec_fn=_big_stack)
+            except subprocess.TimeoutExpired:
+                info.update(ok=False, detail="coqc timed out on " + base + ".v")
+                return info
+            if p.returncode == 0 or re.search(r"^Error", p.stdout, re.M):
+                break
         if p.returncode != 0:
-            info.update(ok=False, detail="property file %s.v does not compile: %s" % (base, p.stdout[-1500:]))
+            info.update(ok=False, detail="property file %s.v does not compile (coqc status %d): %s" % (base, p.returncode, p.stdout[-1500:]))
             return info
         out = p.stdout
         n_closed = len(re.findall(r"Closed under the global context", out))
